@@ -235,3 +235,34 @@ func harnessC16Witness() {
 		verif_assert(false, "witness")
 	}
 }
+
+// a frame from a peer for which (peer, stream id) is no leg of any tunnel --
+// an unrelated neighbour, or a tunnel peer using another identifier that may
+// numerically equal an identifier of a tunnel on another connection -- neither
+// reaches nor tears down the tunnels
+func c16Stranger(kinds []int) {
+	a := c16Agent()
+	e1, e2 := c16Tunnels(false)
+	a.tcpRelay.Insert(e1)
+	a.tcpRelay.Insert(e2)
+	p := c16Peer(verif_choose(6))
+	id := verif_nondet_u64()
+	for _, e := range []*relayEntry{e1, e2} {
+		verif_assume(!(p == e.UpstreamPeer && id == e.UpstreamID))
+		verif_assume(!(p == e.DownstreamPeer && id == e.DownstreamID))
+	}
+	c16Log = nil
+	kind := kinds[verif_choose(len(kinds))]
+	c16Deliver(a, kind, p, id, verif_nondet_bytes(1))
+	verif_reach("C16/stranger")
+	for _, s := range c16Log {
+		verif_assert(s.to == p, "C16/frame-of-an-unrelated-peer-forwarded-into-a-tunnel")
+	}
+	for _, e := range []*relayEntry{e1, e2} {
+		u, _ := a.tcpRelay.LookupBoth(e.UpstreamID)
+		verif_assert(u == e && a.tcpRelay.LookupDownstream(e.DownstreamID) == e, "C16/frame-of-an-unrelated-peer-tears-a-tunnel-down")
+	}
+}
+
+func harnessC16StrangerClose() { c16Stranger([]int{1, 2}) }
+func harnessC16StrangerData()  { c16Stranger([]int{0}) }
